@@ -837,10 +837,16 @@ def _nz_py(V, K, nfs, p, q):
     return int(sum(1 for t in range(p, q) if abs(wh(V, K, nfs, p, t)) > 1e-9))
 
 
+def _part_py(V, K, nfs, p, c):
+    wh = MACROS_PY["c04_wh"]
+    qs = [t for t in range(p, nfs.shape[0]) if abs(wh(V, K, nfs, p, t)) > 1e-9]
+    return qs[c] if 0 <= c < len(qs) else -1
+
+
+_NLET = {"N": "(nfs.shape[0] if nfs.shape[1] >= 2 else 0)"}
 # position of partner q in row p of the preload: number of partners t in [p, q) with a non-zero stored value W'[p,t]
 spec_fn(
-    "c04_nz", params=[("V", "real[2]"), ("K", "real[2]"), ("nfs", "int[2]"), ("p", "int"), ("q", "int")], ret="int",
-    let={"N": "nfs.shape[0]"},
+    "c04_nz", params=[("V", "real[2]"), ("K", "real[2]"), ("nfs", "int[2]"), ("p", "int"), ("q", "int")], ret="int", let=_NLET,
     axioms=["forall(0, N + 1, lambda p: c04_nz(V, K, nfs, p, p) == 0, pat=c04_nz(V, K, nfs, p, p))",
             "forall(0, N, lambda p: forall(p, N, lambda q: c04_nz(V, K, nfs, p, q + 1) == c04_nz(V, K, nfs, p, q)"
             " + (1 if c04_wh(V, K, nfs, p, q) != 0 else 0),"
@@ -855,32 +861,37 @@ spec_fn(
     py=_nz_py,
     doc="rank of q among the partners of p with a non-zero stored overlap",
 )
+_PPROPS = ("p <= c04_part(V, K, nfs, p, c) and c04_part(V, K, nfs, p, c) < {n} and c04_wh(V, K, nfs, p, c04_part(V, K, nfs, p, c)) != 0"
+           " and c04_nz(V, K, nfs, p, c04_part(V, K, nfs, p, c)) == c")
+# the c-th partner of p: the inverse of the rank function on the pairs with a non-zero stored overlap
+spec_fn(
+    "c04_part", params=[("V", "real[2]"), ("K", "real[2]"), ("nfs", "int[2]"), ("p", "int"), ("c", "int")], ret="int", let=_NLET,
+    axioms=["forall(0, N, lambda p: forall(p, N, lambda q: implies(c04_wh(V, K, nfs, p, q) != 0, c04_part(V, K, nfs, p, c04_nz(V, K, nfs, p, q)) == q),"
+            " pat=((c04_nz(V, K, nfs, p, q), c04_w(V, K, nfs, p, q)),)))"],
+    lemmas=[
+        # every position below the count reached so far is the rank of its own partner (discrete intermediate values)
+        dict(name="surj_upto", induct="n", lo=0, hi="N", export=False,
+             stmt="forall(0, n + 1, lambda p: forall(0, c04_nz(V, K, nfs, p, n), lambda c: " + _PPROPS.format(n="n") + ", pat=c04_part(V, K, nfs, p, c)))"),
+        dict(name="surj", noinduct=True,
+             stmt="forall(0, N, lambda p: forall(0, c04_nz(V, K, nfs, p, N), lambda c: " + _PPROPS.format(n="N") + ", pat=c04_part(V, K, nfs, p, c)))"),
+        # partners are listed in increasing order
+        dict(name="incr", noinduct=True,
+             stmt="forall(0, N, lambda p: forall(0, c04_nz(V, K, nfs, p, N), lambda c1: forall(c1 + 1, c04_nz(V, K, nfs, p, N), lambda c2:"
+                  " c04_part(V, K, nfs, p, c1) < c04_part(V, K, nfs, p, c2), pat=((c04_part(V, K, nfs, p, c1), c04_part(V, K, nfs, p, c2)),))))"),
+    ],
+    py=_part_py,
+    doc="(c04_part(p, c))_c enumerates, in increasing order, exactly the q >= p with W'[p,q] != 0 (c < c04_nz(p, N))",
+)
 _NZ = "c04_nz(noise_map_native, kernel_native, nfs, {p}, {q})"
+_PT = "c04_part(noise_map_native, kernel_native, nfs, {p}, {c})"
 
 
-def _row(pre, idx, p, n, qlim, pos="{c}", pats=False):
-    """the first n entries of row p list, in increasing order of the partner q, exactly the q in [p, qlim) with W'[p,q] != 0"""
+def _rowis(pre, idx, p, n, pos, pat=None):
+    """the first n entries of row p are (partner, stored value) of positions 0..n-1"""
     P = lambda c: pos.format(c=c)
-    i1 = idx + "[" + P("c") + "]"
-    pat1 = (", pat=%s" % i1) if pats else ""
-    pat2 = (", pat=((%s[%s], %s[%s]),)" % (idx, P("c1"), idx, P("c2"))) if pats else ""
-    return [
-        "forall(0, %s, lambda c: %s and %s <= toint(%s) and toint(%s) < %s and %s[%s] == %s and %s[%s] != 0%s)" % (
-            n, _INTV.format(x=i1), p, i1, i1, qlim, pre, P("c"), _WH.format(p=p, q="toint(" + i1 + ")"), pre, P("c"), pat1),
-        "forall(0, %s, lambda c1: forall(c1 + 1, %s, lambda c2: %s[%s] < %s[%s]%s))" % (
-            n, n, idx, P("c1"), idx, P("c2"), pat2),
-        # completeness, with the position spelled out: the entry of partner q sits at its rank among the non-zero partners
-        "forall(%s, %s, lambda q: implies(%s != 0, %s < %s and %s[%s] == q))" % (
-            p, qlim, _WH.format(p=p, q="q"), _NZ.format(p=p, q="q"), n, idx, P(_NZ.format(p=p, q="q"))),
-    ]
-
-
-def _rows(lim, pats=False):
-    """rows p < lim of the temporary tables are final"""
-    out = []
-    for r in _row("curvature_preload_tmp", "curvature_indexes_tmp", "p", "toint(curvature_lengths[p])", "N", pos="p, {c}", pats=pats):
-        out.append("forall(0, %s, lambda p: %s)" % (lim, r))
-    return out
+    return ("forall(0, %s, lambda c: %s[%s] == %s and %s[%s] == %s%s)" % (
+        n, idx, P("c"), _PT.format(p=p, c="c"), pre, P("c"), _WH.format(p=p, q=_PT.format(p=p, c="c")),
+        (", pat=%s" % pat.format(c="c")) if pat else ""))
 
 
 _OS = "(2 * Ky - 1) * (2 * Kx - 1)"
@@ -890,43 +901,37 @@ _SORTED = ("forall(0, N, lambda p: forall(p + 1, N, lambda q: nfs[p, 0] < nfs[q,
 _INWIN = "(nfs[{q}, 0] - nfs[ip0, 0] <= 2 * hy and nfs[{q}, 1] - nfs[ip0, 1] <= 2 * hx and nfs[ip0, 1] - nfs[{q}, 1] <= 2 * hx)"
 _RANK = "((nfs[{q}, 0] - nfs[ip0, 0]) * (4 * hx + 1) + nfs[{q}, 1] - nfs[ip0, 1] + 2 * hx)"
 _POS = "c04_offr({L}, {p}) + {c}"
-_RES_ROW = _row("result[0]", "result[1]", "p", "toint(result[2][p])", "N", pos=_POS.format(L="result[2]", p="p", c="{c}"), pats=True)
-
-
-def _resrows(lim):
-    """rows p < lim of the final arrays satisfy the statement"""
-    return ["forall(0, %s, lambda p: %s)" % (lim, r) for r in
-            _row("curvature_preload", "curvature_indexes", "p", "toint(curvature_lengths[p])", "N",
-                 pos=_POS.format(L="curvature_lengths", p="p", c="{c}"), pats=True)]
-
-
-_RES_ROW_I = _row("curvature_preload", "curvature_indexes", "i", "toint(curvature_lengths[i])", "N",
-                  pos=_POS.format(L="curvature_lengths", p="i", c="{c}"), pats=True)
+_TMPROWS = lambda lim: "forall(0, %s, lambda p: %s)" % (lim, _rowis("curvature_preload_tmp", "curvature_indexes_tmp", "p", "toint(curvature_lengths[p])", "p, {c}"))
+_RESROWS = lambda lim: "forall(0, %s, lambda p: %s)" % (lim, _rowis(
+    "curvature_preload", "curvature_indexes", "p", "toint(curvature_lengths[p])", _POS.format(L="curvature_lengths", p="p", c="{c}"),
+    pat="curvature_indexes[" + _POS.format(L="curvature_lengths", p="p", c="{c}") + "]"))
 contract(
     IU + "w_tilde_curvature_preload_imaging_from", props=["C04"],
     types=_WT3, returns="(real[1],real[1],real[1])", let=_NAT,
     requires=_NATREQ + [_SORTED],      # pixels listed in row-major order, as native_index_for_slim_index_2d_from (C01) produces them
-    ensures=["result[2].shape[0] == N", _LENOK.format(lim="N", L="result[2]"),
-             "result[0].shape[0] == c04_offr(result[2], N) and result[1].shape[0] == result[0].shape[0]"]
-            + ["forall(0, N, lambda p: %s)" % r for r in _RES_ROW],
+    ensures=["result[2].shape[0] == N",
+             # lengths: the number of partners q >= p with a non-zero stored overlap, as integer-valued floats
+             _LENOK.format(lim="N", L="result[2]"),
+             "result[0].shape[0] == c04_offr(result[2], N) and result[1].shape[0] == result[0].shape[0]",
+             # row p of the concatenated tables lists (partner, W'[p, partner]) for ALL partners with W'[p,q] != 0, in increasing order
+             "forall(0, N, lambda p: " + _rowis("result[0]", "result[1]", "p", "toint(result[2][p])", _POS.format(L="result[2]", p="p", c="{c}"),
+                                                 pat="result[1][" + _POS.format(L="result[2]", p="p", c="{c}") + "]") + ")"],
     loops={
-        0: {"inv": [_LENOK.format(lim="ip0", L="curvature_lengths")] + _rows("ip0", pats=True)},
-        1: {"inv": _rows("ip0") + ["0 <= kernel_index and kernel_index <= ip1 - ip0 and kernel_index <= " + _OS,
-                      "kernel_index <= " + _NZ.format(p="ip0", q="ip1") + " and kernel_index >= " + _NZ.format(p="ip0", q="ip1")]
-                   + _row("curvature_preload_tmp", "curvature_indexes_tmp", "ip0", "kernel_index", "ip1", pos="ip0, {c}")
-                   + ["forall(ip1, N, lambda q: implies(" + _INWIN.format(q="q") + ", kernel_index <= " + _RANK.format(q="q") + "))"]},
-        # compaction: the rows already copied satisfy the final statement (so the postcondition IS the exit invariant);
-        # the transfer from the temporary row i is done for that one row in three ghost assertions
-        2: {"inv": ["index == c04_offr(curvature_lengths, i)"] + _resrows("i"),
-            "assert_at": {1: _RES_ROW_I}},
-        3: {"inv": ["index <= c04_offr(curvature_lengths, i) + data_index and index >= c04_offr(curvature_lengths, i) + data_index"]
-                   + _resrows("i")
-                   + ["forall(0, data_index, lambda c: curvature_preload[" + _POS.format(L="curvature_lengths", p="i", c="c") + "] == curvature_preload_tmp[i, c]"
-                      " and curvature_indexes[" + _POS.format(L="curvature_lengths", p="i", c="c") + "] == curvature_indexes_tmp[i, c],"
-                      " pat=(curvature_indexes[" + _POS.format(L="curvature_lengths", p="i", c="c") + "], curvature_indexes_tmp[i, c]))"]},
+        0: {"inv": [_LENOK.format(lim="ip0", L="curvature_lengths"), _TMPROWS("ip0")]},
+        1: {"inv": [_TMPROWS("ip0"),
+                    "0 <= kernel_index and kernel_index <= ip1 - ip0 and kernel_index <= " + _OS,
+                    "kernel_index <= " + _NZ.format(p="ip0", q="ip1") + " and kernel_index >= " + _NZ.format(p="ip0", q="ip1"),
+                    _rowis("curvature_preload_tmp", "curvature_indexes_tmp", "ip0", "kernel_index", "ip0, {c}"),
+                    # index safety of the temporary row: partners inside the (2Ky-1) x (2Kx-1) window are ranked by their window position
+                    "forall(ip1, N, lambda q: implies(" + _INWIN.format(q="q") + ", kernel_index <= " + _RANK.format(q="q") + "))"]},
+        2: {"inv": ["index == c04_offr(curvature_lengths, i)", _RESROWS("i")]},
+        3: {"inv": ["index <= c04_offr(curvature_lengths, i) + data_index and index >= c04_offr(curvature_lengths, i) + data_index",
+                    _RESROWS("i"),
+                    _rowis("curvature_preload", "curvature_indexes", "i", "data_index", _POS.format(L="curvature_lengths", p="i", c="{c}"),
+                           pat="curvature_indexes[" + _POS.format(L="curvature_lengths", p="i", c="{c}") + "]")]},
     },
-    sentence={"c04_wh": "the preload is an exact sparse encoding of the upper triangle of W with the diagonal halved: row p lists, in increasing "
-                        "order of q >= p, exactly the pixel pairs with W'[p,q] != 0 -- every non-zero overlap whatever its sign -- with their values"},
+    sentence={"c04_part": "the preload is an exact sparse encoding of the upper triangle of W with the diagonal halved: row p lists, in increasing "
+                          "order of q >= p, exactly the pixel pairs with W'[p,q] != 0 -- every non-zero overlap whatever its sign -- with their values"},
 )
 _ext.PSUM.add(IU + "w_tilde_curvature_preload_imaging_from")
 
